@@ -96,7 +96,7 @@ func (u *UniAttribute) Decode(is *codec.Reader) error {
 		var k string
 		var v []byte
 
-		err = is.ReadString(&k, 0, false)
+		err = is.ReadString(&k, 0, true)
 		if err != nil {
 			return err
 		}
